@@ -230,3 +230,83 @@ def install(E):
     Bn[('import', 'functools:partial')] = _partial
     Bn[('import', 'functools:wraps')] = _wraps
     return ns
+
+
+# ------------------------------------------------------------------ simple object stubs (constructors record
+# their arguments; behaviour is added by the contracts that need it)
+def install_objects(E):
+    ns = E.builtins[('import', 'asyncio')]
+
+    def _event(E_, a, k):
+        e = E.fresh('ev', EvS)
+        evs = wget(E, 'ev_set', lambda: E.fresh('ev_set', z3.ArraySort(EvS, B)))
+        E.w['ev_set'] = z3.Store(evs, e, False)
+        return Obj('AEvent', dict(ident=e))
+    ns.attrs['Event'] = VClass('asyncio.Event', ctor=_event)
+
+    def _queue(E_, a, k):
+        q = Obj('AQueue', dict(maxsize=k.get('maxsize', a[0] if a else VInt(0))))
+        E.w[('q', q.oid)] = z3.Empty(VS)
+        E.w[('q_unfinished', q.oid)] = z3.IntVal(0)
+        return q
+    ns.attrs['Queue'] = VClass('asyncio.Queue', ctor=_queue)
+    ns.attrs['LifoQueue'] = VClass('asyncio.LifoQueue', ctor=lambda E_, a, k: Obj('ALifoQueue'))
+    ns.attrs['PriorityQueue'] = VClass('asyncio.PriorityQueue', ctor=lambda E_, a, k: Obj('APriorityQueue'))
+
+    def _sem(E_, a, k):
+        v = k.get('value', a[0] if a else VInt(1))
+        s_ = Obj('ASemaphore', dict(value=v))
+        E.w[('sem_permits', s_.oid)] = v.t if isinstance(v, VInt) else None
+        return s_
+    ns.attrs['Semaphore'] = VClass('asyncio.Semaphore', ctor=_sem)
+    ns.attrs['BoundedSemaphore'] = VClass('asyncio.BoundedSemaphore', ctor=_sem)
+
+    def _attr(E_, o, name, node):
+        if isinstance(o, Obj) and o.cls == 'AEvent':
+            ev = o.fields['ident']
+            if name == 'set':
+                return VStub('Event.set', lambda E_, a, k: _ev_write(E, ev, True))
+            if name == 'clear':
+                return VStub('Event.clear', lambda E_, a, k: _ev_write(E, ev, False))
+            if name == 'is_set':
+                return VStub('Event.is_set', lambda E_, a, k: VBool(z3.Select(
+                    wget(E, 'ev_set', lambda: E.fresh('ev_set', z3.ArraySort(EvS, B))), ev)))
+            if name == 'wait':
+                return VStub('Event.wait', lambda E_, a, k: mk_awaitable('event_wait', ev=ev))
+        h = E.builtins.get('__getattr_ext__')
+        return h(E_, o, name, node) if h else None
+    E.builtins['__getattr__'] = _attr
+
+    def _daemon(E_, a, k):
+        """DaemonTask(coro, loop=, name=): an asyncio.Task of `coro` on `loop` (started at the loop's next
+        iteration, not run here); creation on a closed loop raises RuntimeError."""
+        coro = a[1] if len(a) > 1 else k.get('coro')
+        t = Obj('ATask', dict(coro=coro, loop=k.get('loop'), name=k.get('name'), daemon=True))
+        E.effect('task.create', t)
+        tasks = wget(E, 'tasks_created', lambda: [])
+        tasks.append(t)
+        return t
+
+    class _DaemonSpec:
+        def apply(self, E_, args, kwargs, node=None):
+            return _daemon(E_, args, kwargs)
+    E.specs['aiuti.asyncio.DaemonTask'] = _DaemonSpec()
+
+    def _wkd(E_, a, k):
+        d = Obj('WeakKeyDict')
+        E.w[('wkd_has', d.oid)] = z3.K(LoopS, False)
+        return d
+    E.builtins[('import', 'weakref:WeakKeyDictionary')] = VClass('weakref.WeakKeyDictionary', ctor=_wkd)
+    E.builtins[('import', 'weakref:finalize')] = VStub('weakref.finalize', lambda E_, a, k: (E.effect('weakref.finalize', *a), NONE)[1])
+    E.builtins[('import', 'concurrent.futures:ThreadPoolExecutor')] = VClass(
+        'ThreadPoolExecutor', ctor=lambda E_, a, k: Obj('Executor', dict(workers=a[0] if a else NONE)))
+    E.builtins[('import', 'itertools:islice')] = VStub('itertools.islice', lambda E_, a, k: Obj('islice', dict(it=a[0], n=a[1])))
+    E.builtins[('import', 'sys')] = VNamespace('sys', dict(version_info=VTuple([VInt(3), VInt(12), VInt(1)])))
+    E.builtins[('import', 'queue')] = VNamespace('queue', dict(Queue=VClass('queue.Queue', ctor=lambda E_, a, k: Obj('TQueue'))))
+
+
+def _ev_write(E, ev, val):
+    evs = wget(E, 'ev_set', lambda: E.fresh('ev_set', z3.ArraySort(EvS, B)))
+    E.w['ev_set'] = z3.Store(evs, ev, val)
+    E.effect('event.set' if val else 'event.clear', ev)
+    return NONE
